@@ -115,9 +115,28 @@ func c12Gen(t *verifrt.Tape) *c12Scenario {
 		{[]string{"  Ab ", " Ab ", "Ab ", "Ab", "ab"}, []string{"trimLeft", "trimRight", "lowercase"}},
 		{[]string{"3334333133343334", "34313434", "4144", "AD"}, []string{"hexDecode", "hexDecode", "lowercase"}},
 	}
+	// equal-length neighbours that collide under a weak fingerprint of the source
+	// value (FNV-1a/FNV-1 32, CRC-32 IEEE / Castagnoli, Adler-32, common prefix,
+	// common suffix): an entry that remembers less than the value itself is
+	// reached in shift mode, where neighbours swap positions between rules
+	for _, p := range [][2]string{
+		{"dFwqXZ4O", "LMgmKpwn"}, {"s2EOP0hY", "891I4gmM"}, {"XmBSkAwk", "dnMDOHDF"},
+		{"7sdF9yyF", "Y3tF5svs"}, {"dWNZU6sr", "13Qu3uWn"},
+		{"JU3mi7pB", "zUM5vBWf"}, {"Ze8bSQ6O", "FqDEI1Vh"},
+		{"MrDZbTRz", "QOWm7Msc"}, {"mAFz7doi", "JOCIJC10"},
+		{"mXnMgYav", "wWVDmryW"}, {"VYHLg4o4", "u9iA08zG"},
+		{"QwErTyU1x", "QwErTyU2x"}, {"1xQwErTyU", "2xQwErTyU"}, {"ad", "bc"},
+	} {
+		chains = append(chains, chainT{[]string{p[0], p[1], p[0], p[1], p[0]}, []string{"lowercase", "urlDecode", "lowercase"}})
+	}
 	var chain *chainT
 	if t.Draw(3) == 0 {
-		chain = &chains[t.Draw(len(chains))]
+		// the first four (transformation chains) and the collision pairs get equal shares
+		if t.Draw(2) == 0 {
+			chain = &chains[t.Draw(4)]
+		} else {
+			chain = &chains[4+t.Draw(len(chains)-4)]
+		}
 		family = append([]string(nil), chain.trans[:2+t.Draw(2)]...)
 	}
 	allowDyn := chain == nil && t.Draw(3) == 0
